@@ -193,6 +193,13 @@ class WcMachine(Machine):
         w, s = st.w, st.s
         cfg = self.cfg
         live = [i for i, x in enumerate(self.slots) if x is not None]
+        plan = getattr(self, "_plan", [])
+        if plan:
+            kind = plan.pop(0)
+            if kind == "gc_collect":
+                return dict(op="gc_collect")
+            limit0 = w.choice([cfg["limit_bias"], 16])
+            return dict(op="wc_new", line=self._gen_wc_line(w, limit0), limit=limit0, ctor="line")
         limit = w.choice([cfg["limit_bias"], cfg["limit_bias"], w.choice([0, 1, 2, 3, 4, 16, 30])])
         if len(live) < 2 or (len(live) < 6 and s.random() < 0.15):
             if s.random() < cfg["addr_share"]:
@@ -214,6 +221,8 @@ class WcMachine(Machine):
         if cfg["gc_events"] and r < 0.04:
             return dict(op="gc_collect")
         if cfg["gc_events"] and r < 0.08:
+            # free an object, collect, and allocate again at once: identity (id) reuse
+            self._plan = ["gc_collect", "wc_new", "wc_new"]
             return dict(op="drop", t=t)
         if cfg["pressure"] and r < 0.16:
             return dict(op="memo_pressure", n=s.choice([1, 5, 40, 130, 260]))
@@ -242,7 +251,8 @@ class WcMachine(Machine):
         if r < 0.60:
             return dict(op="set_platform", t=t, p=w.choice(["ios", "nxos"]))
         if slot["kind"] == "wc":
-            what = s.choice(["ipnets", "ipnets", "ipnets", "ipnet", "line", "data", "copy"])
+            what = s.choice(["ipnets", "ipnets", "ipnets", "ipnet", "line", "data", "copy",
+                             "ipnets_scribble"])
             return dict(op="wc_query", t=t, what=what, memo=self._memo_schedule(st))
         what = s.choice(["ipnets", "ipnets", "prefixes", "subnets", "wildcards", "ipnet", "data"])
         if slot["kind"] == "grp":
@@ -643,6 +653,14 @@ class WcMachine(Machine):
             self._check_wc(c, slot, "copy()")
         elif what in ("ipnets",):
             self._check_wc(w, slot, "query ipnets")
+        elif what == "ipnets_scribble":
+            # the caller owns the returned list: emptying it must not change later answers
+            k = len(split_mask(slot["mask"])[1])
+            if k <= ENUM_K and not slot.get("rejected"):
+                got = w.ipnets()
+                got.clear()
+                self.probes["returned_list_scribbled"] += 1
+            self._check_wc(w, slot, "query after the returned list was emptied")
         else:
             self._check_wc(w, slot, f"query {what}", deep=False)
         slot["queried"] = True
